@@ -1,1 +1,2 @@
 pub mod plan;
+pub mod sysdata;
